@@ -30,7 +30,21 @@ U_VARIANTS = ["el", "er", "eb", "ls", "ad", "ac"]
 D_VARIANTS = ["el", "ed", "ls", "ad", "ac"]
 T_VARIANTS = ["el", "ep", "ac"]
 FULL_VARIANTS = ("el", "ac")  # construction letters that get the whole operation alphabet
-WEIGHTED = ("ad", "ac")
+WEIGHTED = ("ad", "ac", "az", "az1", "an", "at", "zop")
+
+# boundary letters (kind B roots), one per boundary visible in the anchored code:
+#   az  : csr adjacency in which EVERY position (diagonal included) is stored, non-edges as explicit zeros
+#   az1 : csr adjacency with one explicitly stored zero (first non-adjacent pair, else the diagonal)
+#   zop : built from a weighted csr, then edges are removed one at a time by assigning 0 into adjacency_matrix
+#   an  : weights of both signs (every other edge negative)          at : all weights equal (2.0): ties everywhere
+# plus, on every root: vertex numbers -1 and n (just outside [0, n-1]) and masks of length n-1 and n+1.
+B_VARIANTS = ["az", "az1", "zop", "an", "at"]
+# menpo hands its csr matrix to scipy.csgraph, which reads an explicitly stored zero as a zero-weight EDGE although
+# menpo documents a zero as a non-edge: find_path / find_shortest_path / find_all_shortest_paths /
+# minimum_spanning_tree / the Tree constructor / PointTree.from_mask are wrong on such matrices on the unchanged
+# tree (reported).  While this is False the stored-zero letters get every query that does not go through csgraph
+# (static queries, cycle / tree tests, masks of graphs); set it to True once /repo treats stored zeros as non-edges.
+ZERO_WEIGHT_CSGRAPH_OPS = False
 
 # "argument form" letters: the same payload presented in every form the unchanged tree accepts (probed on /repo:
 # an outer tuple of edges, float vertex numbers, float16 / non-csr / list adjacency, list points, integer or list
@@ -62,6 +76,7 @@ class C14(Check):
 
     def __init__(self, tier, seed):
         super(C14, self).__init__(tier, seed)
+        self._dist_ok = True  # False on stored-zero letters while ZERO_WEIGHT_CSGRAPH_OPS is off
         self._vc = int  # how vertex arguments are presented to menpo (argument-form letter of the current state)
         self._reported = set()  # (root, finding id): an open finding is returned as a Failure once per root
 
@@ -119,6 +134,7 @@ class C14(Check):
                     out.append(("T", 5, code, r, "P", "el", "lite"))
         # the family roots are the expensive ones (seconds each): spread them evenly through the list so that
         # the contiguous chunks handed to the worker processes each get a few of them
+        out.extend(self._boundary_roots())
         fam = self._family_roots() + self._form_roots()
         stride = max(1, len(out) // max(1, len(fam)))
         mixed = []
@@ -133,18 +149,22 @@ class C14(Check):
         quick = self.tier == "quick"
         big = [9] if quick else [9, 40]
         out = []
-        for n in big:
+        for n in [1, 2, 3] + big:  # 1, 2, 3: the smallest members (a one-vertex tree exists only through these constructors)
             for cls in ("A", "P"):
                 for kind in ("U", "D", "T"):
                     out.append(("F", "chain", n, 0, kind, cls, "pre", "full"))
-                    for r in (0, n // 2, n - 1):
+                    for r in sorted(set((0, n // 2, n - 1))):
                         out.append(("F", "star", n, r, kind, cls, "pre", "full"))
                 for kind in ("U", "D"):
-                    out.append(("F", "cycle", n, 0, kind, cls, "pre", "full"))
+                    if n >= 2:  # a closed chain on one vertex is a self loop (outside the simple-graph scope)
+                        out.append(("F", "cycle", n, 0, kind, cls, "pre", "full"))
+                    if n <= 3:
+                        out.append(("F", "complete", n, 0, kind, cls, "pre", "full"))
                 out.append(("F", "empty", n, 0, "U", cls, "pre", "lite"))
             for kind in ("U", "D"):
                 out.append(("F", "chain", n, 0, kind, "P", "ac", "full"))
-                out.append(("F", "cycle", n, 0, kind, "P", "ac", "full"))
+                if n >= 2:
+                    out.append(("F", "cycle", n, 0, kind, "P", "ac", "full"))
                 out.append(("F", "star", n, n // 2, kind, "P", "ac", "full"))
         for n in ([6] if quick else [6, 12, 40]):
             for cls in ("A", "P"):
@@ -157,10 +177,39 @@ class C14(Check):
             for kind in ("U", "D"):
                 out.append(("F", "grid", code, 0, kind, "P", "pre", "full"))
                 out.append(("F", "grid", code, 0, kind, "P", "ac", "full"))
+        for shape in [(1, 1), (1, 4), (4, 1), (2, 2)]:  # degenerate grids: one vertex, one row, one column, one cell
+            for kind in ("U", "D"):
+                out.append(("F", "grid", shape[0] * 100 + shape[1], 0, kind, "P", "pre", "full"))
         for n in ([15] if quick else [15, 40]):
             for cls in ("A", "P"):
                 out.append(("F", "binary", n, 0, "T", cls, "el", "full"))
             out.append(("F", "binary", n, 0, "U", "P", "ac", "full"))
+        return out
+
+    def _boundary_roots(self):
+        out = []
+        zmode = "full" if ZERO_WEIGHT_CSGRAPH_OPS else "lite"
+        modes = {"az": zmode, "az1": zmode, "zop": zmode, "an": "full", "at": "full"}
+        for n in range(1, 5):
+            for bits in range(2 ** len(und_pairs(n))):
+                for cls in ("A", "P"):
+                    for v in B_VARIANTS:
+                        if bits == 0 and v in ("zop", "an"):
+                            continue
+                        out.append(("B", "U", n, bits, 0, cls, v, modes[v]))
+        for n in range(1, 4):
+            for bits in range(2 ** len(dir_pairs(n))):
+                for cls in ("A", "P"):
+                    for v in B_VARIANTS:
+                        if bits == 0 and v in ("zop", "an"):
+                            continue
+                        out.append(("B", "D", n, bits, 0, cls, v, modes[v]))
+        for n in range(2, 5):
+            for code in range(1 if n == 2 else n ** (n - 2)):
+                for r in range(n):
+                    for cls in ("A", "P"):
+                        for v in ("an", "at") + (("az", "az1") if ZERO_WEIGHT_CSGRAPH_OPS else ()):
+                            out.append(("B", "T", n, code, r, cls, v, "full"))
         return out
 
     def _form_roots(self):
@@ -202,12 +251,27 @@ class C14(Check):
             edges = orient_from_root(n, prufer_tree(n, code), troot)
             directed = True
             salt = (kind, n, code, troot)
+        elif kind == "B":
+            _, sub, n, code, troot, cls, variant, mode = root
+            if sub == "T":
+                edges = orient_from_root(n, prufer_tree(n, code), troot)
+                directed = True
+            else:
+                pairs = und_pairs(n) if sub == "U" else dir_pairs(n)
+                edges = [p for i, p in enumerate(pairs) if (code >> i) & 1]
+                troot = None
+                directed = sub == "D"
+            salt = ("B", sub, n, code, troot)
         elif kind == "X":
             return self._build_form(root)
         else:
             return self._build_family(root)
         pts = self._points(n, salt) if cls == "P" else None
         weights = self._weights(edges, salt) if variant in WEIGHTED else None
+        if variant == "an":  # every other edge negative
+            weights = {e: (-w if i % 2 == 0 else w) for i, (e, w) in enumerate(sorted(weights.items()))}
+        elif variant == "at":
+            weights = {e: 2.0 for e in weights}
         return self._construct(root, directed, troot, cls, variant, n, edges, weights, pts, mode)
 
     def _classes(self, directed, troot, cls):
@@ -244,7 +308,22 @@ class C14(Check):
                 dense[b, a] = weights[(a, b)]
         if variant == "ad":
             return "adj", dense
-        if variant == "ac":
+        if variant in ("az", "az1"):
+            pat = dense != 0
+            if variant == "az":
+                stored = np.ones((n, n), dtype=bool)
+            else:
+                stored = pat.copy()
+                free = [(a, b) for a in range(n) for b in range(n) if a != b and not pat[a, b] and not pat[b, a]]
+                a, b = free[0] if free else (0, 0)
+                stored[a, b] = True
+                if not directed:
+                    stored[b, a] = True
+            r, c = np.nonzero(stored)
+            mat = csr_matrix((dense[r, c], (r, c)), shape=(n, n))
+            assert mat.nnz == int(stored.sum()) and mat.nnz > int(pat.sum()), "no explicitly stored zero"
+            return "adj", mat
+        if variant in ("ac", "an", "at", "zop"):
             r, c = np.nonzero(dense)
             r, c = r[::-1], c[::-1]
             return "adj", csr_matrix((dense[r, c], (r, c)), shape=(n, n))
@@ -430,6 +509,7 @@ class C14(Check):
             "mode": mode,
             "ctor": (how, arg, cls),
             "family": False,
+            "zeros": variant in ("az", "az1"),
         }
 
     # ---- families
@@ -456,7 +536,7 @@ class C14(Check):
         elif name == "cycle":
             e = [(i, i + 1) for i in range(n - 1)] + [(n - 1, 0)]
             if kind == "U":
-                e = [(min(a, b), max(a, b)) for (a, b) in e]
+                e = sorted(set((min(a, b), max(a, b)) for (a, b) in e))
         elif name == "star":
             e = [(extra, v) for v in range(n) if v != extra]
             if kind == "U":
@@ -522,13 +602,22 @@ class C14(Check):
         return (st["cls"], st["m"].key(), st["troot"], obs_key(observe(st["g"])))
 
     def is_query(self, op):
-        return op[0] != "mask"
+        return op[0] not in ("mask", "zero")
 
     # ------------------------------------------------------------------------------------------ alphabet
+    @staticmethod
+    def _wsp_ok(m):
+        """weighted shortest paths are defined: no negative weight, or a digraph without any cycle (an undirected
+        negative edge, or a negative weight on a directed cycle, may make the distance unbounded)."""
+        return m.weights_defined and (all(w > 0 for w in m.w.values()) or (m.directed and not m.has_cycle()))
+
+    def _csgraph_ok(self, st):
+        return ZERO_WEIGHT_CSGRAPH_OPS or not st.get("zeros")
+
     def _sp_letters(self, st):
         m = st["m"]
         letters = [("auto", True)]
-        if m.weights_defined:
+        if self._wsp_ok(m):
             letters.insert(0, ("auto", False))
             if self.tier == "thorough" and st["cls"] in ("UndirectedGraph", "DirectedGraph", "Tree") and not st["family"] and not self._largest_scope(st):
                 # scipy's own method names: the names listed in menpo's docstring ('dijkstra', 'floyd-warshall',
@@ -578,7 +667,14 @@ class C14(Check):
         out = [("built",), ("static",)]
         if is_tree_obj:
             out.append(("tree",))
-        astree = m.directed and not is_tree_obj and level == 0 and n >= 2 and st["ctor"] is not None
+        astree = m.directed and not is_tree_obj and level == 0 and n >= 2 and st["ctor"] is not None and self._csgraph_ok(st)
+        if level == 0 and mode != "static" and st.get("vc", int) is int:
+            # just outside the vertex range [0, n-1] and the mask length n
+            out += [("oor", -1), ("oor", n)]
+            if st["cls"].startswith("Point"):
+                out += [("masklen", n - 1), ("masklen", n + 1)]
+        if level == 0 and st["root"][0] == "B" and st["root"][6] == "zop":
+            out += [("zero", a, b) for (a, b) in m.edge_list()]
         second_mask = True
         if level >= 1 and (self._largest_scope(st) or (st["family"] and st["root"][2] > 12)):
             # reduced second level for the largest scopes: the queries are repeated on the results that lost
@@ -639,15 +735,26 @@ class C14(Check):
     def apply(self, st, op, verify=True):
         k = op[0]
         self._vc = st.get("vc", int)
+        self._dist_ok = self._csgraph_ok(st)
         if k == "mask":
             return self._op_mask(st, op[1], verify)
+        if k == "zero":
+            return self._op_zero(st, op[1], op[2], verify)
         if not verify:
             return []
+        if k == "oor":
+            return self._op_oor(st, op[1])
+        if k == "masklen":
+            return self._op_masklen(st, op[1])
         if k == "built":
             return self._op_built(st)
         if k == "static":
             f = self._static(st["g"], st["m"], st["pts"], st["cls"], "queries")
             self.note("static:%s" % ("ok" if not f else "fail"))
+            if st["root"][0] == "B" and not f:
+                self.note("bnd-ok:%s:%s" % (st["root"][6], st["root"][1]))
+            if st["root"][0] == "F" and not f and st["m"].n == 1:
+                self.note("bnd-ok:one-vertex-family:%s" % st["cls"])
             if st["root"][0] == "X" and not f:
                 self.note("form-ok:%s:%s:%s" % (st["root"][6], st["root"][7], "n>12" if st["m"].n > 12 else "small"))
             return f
@@ -782,13 +889,20 @@ class C14(Check):
                     tag = "nontree-False"
                 self.note("is_tree:directed-%s" % tag)
         # all-pairs distances
-        if m.weights_defined:
+        if not self._dist_ok:
+            return self._static_points(g, m, pts, F, bad)
+        if self._wsp_ok(m):
             D = np.asarray(g.find_all_shortest_paths()[0], dtype=float)
             if not np.array_equal(D, m.dist(False)):
                 bad("all-shortest-distances", "distance matrix %r expected %r" % (D.tolist(), m.dist(False).tolist()))
         Du = np.asarray(g.find_all_shortest_paths(unweighted=True)[0], dtype=float)
         if not np.array_equal(Du, m.dist(True)):
             bad("all-shortest-distances", "unweighted distance matrix %r expected %r" % (Du.tolist(), m.dist(True).tolist()))
+        return self._static_points(g, m, pts, F, bad)
+
+    @staticmethod
+    def _static_points(g, m, pts, F, bad):
+        n = m.n
         # points travel with the vertices
         if pts is not None:
             P = np.asarray(g.points)
@@ -910,6 +1024,8 @@ class C14(Check):
         if length != D[s, e]:
             return [Failure("find_shortest_path", "route-not-shortest", ctx + ": the route weighs %r, Floyd-Warshall distance is %r" % (length, D[s, e]))]
         hops = min(len(route) - 1, 4)
+        if not unw and any(w < 0 for w in m.w.values()):
+            self.note("sp:negative-weights-%s" % ("negative-distance" if D[s, e] < 0 else "other"))
         if cost == D[s, e]:
             self.note("sp:cost-ok-%dedges" % hops)
             return []
@@ -957,6 +1073,10 @@ class C14(Check):
         F += self._static(t, tm, st["pts"], want, where)
         F += self._tree(t, tm, r, where)
         self.note("mst:%s" % ("ok" if not F else "fail"))
+        if not F and any(w < 0 for w in m.w.values()):
+            self.note("mst:negative-weights-ok")
+        if not F and len(set(m.w.values())) == 1 and len(m.w) > 2 * (n - 1):
+            self.note("mst:all-weights-tied-ok")
         return F
 
     # ---- Tree(adjacency, root) on a digraph
@@ -984,6 +1104,64 @@ class C14(Check):
             return self._refused_tree(st, "Tree-constructor", ctx, exc)
         self.note("astree:accepted")
         return self._static(t, m, st["pts"], klass.__name__, "Tree-constructor") + self._tree(t, m, r, "Tree-constructor")
+
+    # ---- boundary letters
+    def _op_zero(self, st, a, b, verify):
+        """remove the edge (a, b) by assigning 0 into the public adjacency matrix (documented: zero = non-edge)."""
+        g, m = st["g"], st["m"]
+        g.adjacency_matrix[a, b] = 0
+        if not m.directed:
+            g.adjacency_matrix[b, a] = 0
+        arcs = {e: w for e, w in m.w.items() if e != (a, b) and (m.directed or e != (b, a))}
+        m2 = RefGraph(m.n, m.directed, arcs, m.weights_defined)
+        st.update(m=m2, zeros=True, ctor=None)
+        if not verify:
+            return []
+        self._dist_ok = self._csgraph_ok(st)
+        F = self._static(g, m2, st["pts"], st["cls"], "after-zero-assignment")
+        self.note("zero-op:%s" % ("ok" if not F else "fail"))
+        return F
+
+    def _op_oor(self, st, v):
+        """vertex numbers just outside [0, n-1]: every method documented to raise ValueError for them must do so."""
+        g, m = st["g"], st["m"]
+        V = self._vc
+        inside = 0
+        calls = [("is_edge-1", lambda: g.is_edge(V(v), V(inside))), ("is_edge-2", lambda: g.is_edge(V(inside), V(v))),
+                 ("find_path-start", lambda: g.find_path(V(v), V(inside))), ("find_path-end", lambda: g.find_path(V(inside), V(v))),
+                 ("find_shortest_path-start", lambda: g.find_shortest_path(V(v), V(inside))),
+                 ("find_shortest_path-end", lambda: g.find_shortest_path(V(inside), V(v)))]
+        if m.directed:
+            calls += [("children", lambda: g.children(V(v))), ("parents", lambda: g.parents(V(v))),
+                      ("n_children", lambda: g.n_children(V(v))), ("n_parents", lambda: g.n_parents(V(v)))]
+        else:
+            calls += [("neighbours", lambda: g.neighbours(V(v))), ("n_neighbours", lambda: g.n_neighbours(V(v)))]
+        if st["troot"] is not None:
+            calls += [("parent", lambda: g.parent(V(v))), ("depth_of_vertex", lambda: g.depth_of_vertex(V(v))), ("is_leaf", lambda: g.is_leaf(V(v)))]
+        F = []
+        for name, fn in calls:
+            try:
+                got = fn()
+            except ValueError:
+                continue
+            F.append(Failure("vertex-out-of-range", name, "%s with %d vertices: %s with vertex %d returned %r instead of raising ValueError" % (st["cls"], m.n, name, v, got)))
+        # find_all_paths documents no refusal: there is simply no path from / to a vertex that does not exist
+        small = m.n <= 5 or len(m.pairs()) <= m.n  # towards a missing end the real code enumerates every simple path
+        for s_, e_ in ((v, inside), (inside, v)) if small else ((v, inside),):
+            got = g.find_all_paths(V(s_), V(e_))
+            if len(got) != 0 or int(g.n_paths(V(s_), V(e_))) != 0:
+                F.append(Failure("vertex-out-of-range", "find_all_paths", "%s with %d vertices: find_all_paths(%d, %d) = %r" % (st["cls"], m.n, s_, e_, got)))
+        self.note("oor:%s:%s" % ("below" if v < 0 else "above", "refused" if not F else "fail"))
+        return F
+
+    def _op_masklen(self, st, length):
+        g = st["g"]
+        try:
+            h = g.from_mask(np.ones(length, dtype=bool))
+        except ValueError:
+            self.note("masklen:%s:refused" % ("short" if length < st["m"].n else "long"))
+            return []
+        return [Failure("from_mask/%s" % st["cls"], "wrong-length-mask-accepted", "%d vertices, mask of length %d gave %r vertices" % (st["m"].n, length, h.n_vertices))]
 
     # ---- masking
     def _op_mask(self, st, bits, verify):
@@ -1071,6 +1249,14 @@ class C14(Check):
             "mask:tree-whole",
         ]
         out = ["outcome %s never produced" % n for n in need if not notes.get(n)]
+        for tag in (
+            ["bnd-ok:%s:%s" % (v, k) for v in B_VARIANTS for k in ("U", "D")]
+            + ["bnd-ok:an:T", "bnd-ok:at:T", "zero-op:ok", "oor:below:refused", "oor:above:refused", "masklen:short:refused", "masklen:long:refused"]
+            + ["sp:negative-weights-negative-distance", "mst:negative-weights-ok", "mst:all-weights-tied-ok"]
+            + ["bnd-ok:one-vertex-family:%s" % c for c in ("UndirectedGraph", "DirectedGraph", "Tree", "PointUndirectedGraph", "PointDirectedGraph", "PointTree")]
+        ):
+            if not notes.get(tag):
+                out.append("boundary outcome %s never produced" % tag)
         for factor, forms in FORM_FACTORS.items():
             for form in forms:
                 for size in ("small", "n>12"):
@@ -1105,6 +1291,8 @@ class C14(Check):
             "directed_variants": D_VARIANTS,
             "tree_variants": T_VARIANTS,
             "full_alphabet_variants": list(FULL_VARIANTS),
+            "boundary_variants": B_VARIANTS,
+            "zero_weight_csgraph_ops": ZERO_WEIGHT_CSGRAPH_OPS,
             "argument_forms": FORM_FACTORS,
             "argument_form_families": ["%s/%s" % f for f in FORM_FAMILIES],
             "argument_form_sizes": FORM_SIZES,
@@ -1114,6 +1302,9 @@ class C14(Check):
     def assumptions(self):
         return [
             "argument forms (kind X roots): one argument kind at a time (edge array dtype/container/layout, adjacency dtype/container/layout, point dtype/layout, numpy-scalar vertex numbers, read-only / strided masks, numpy n_vertices) on chains, cycles, stars, complete graphs and binary trees of 9 and 40 vertices, abstract and point-carrying; only forms the unchanged tree accepts (outer tuples, float vertex numbers, float16 / non-csr / list adjacency, list points, integer masks are not letters); expectations are float64 values of the payload",
+            "boundary letters (kind B roots, every undirected graph n<=4, digraph n<=3, rooted tree n<=4, abstract and point-carrying): csr adjacency with every position stored (non-edges as explicit zeros) / with one stored zero; edges removed by assigning 0 into adjacency_matrix; weights of both signs; all weights equal; on every root vertex numbers -1 and n (documented ValueError) and masks of length n-1 / n+1; predefined families on 1, 2, 3 vertices and 1x1 / 1x4 / 4x1 / 2x2 grids",
+            "a stored zero is a non-edge (documented).  ZERO_WEIGHT_CSGRAPH_OPS=%r: while False, stored-zero letters are not given the queries that menpo delegates to scipy.csgraph (paths, shortest paths, distances, MST, Tree construction, tree masks), which read a stored zero as a zero-weight edge on the unchanged tree (reported defect)" % ZERO_WEIGHT_CSGRAPH_OPS,
+            "[interp] weighted shortest paths are judged only where they are defined (no negative weight, or an acyclic digraph); minimum_spanning_tree with a root outside [0, n-1] and PointTree.init_2d_grid on one-row / one-column grids are not judged",
             "simple graphs only (no self loops); weights are distinct positive integers stored as floats, so all sums are exact",
             (
                 "quick: every mask/pair/root for undirected n<=4, directed n<=3, trees n<=4; undirected n=5 and directed n=4 get the static queries (and Tree(root) readings) only"
